@@ -161,6 +161,7 @@ impl SocksListener {
             .set_callback(Callback {
                 version: request.version,
                 listen_addr: None,
+                replied: Default::default(),
             })
             .set_client_stream(socket);
 
@@ -212,6 +213,7 @@ impl SocksListener {
                     .set_callback(Callback {
                         version: request.version,
                         listen_addr: Some(listen_addr),
+                        replied: Default::default(),
                     })
                     .set_idle_timeout(state.timeouts.udp);
                 ctx.enqueue(&queue).await?;
@@ -228,11 +230,15 @@ impl SocksListener {
 struct Callback {
     version: u8,
     listen_addr: Option<SocketAddr>,
+    // the success reply went out: whatever ends the session later must not add a second reply
+    replied: std::sync::atomic::AtomicBool,
 }
 
 #[async_trait]
 impl ContextCallback for Callback {
     async fn on_connect(&self, ctx: &mut Context) {
+        self.replied
+            .store(true, std::sync::atomic::Ordering::Relaxed);
         let version = self.version;
         let cmd = SOCKS_REPLY_OK;
         let target = self.listen_addr.map_or_else(|| ctx.target(), |x| x.into());
@@ -247,6 +253,11 @@ impl ContextCallback for Callback {
         }
     }
     async fn on_error(&self, ctx: &mut Context, _error: Error) {
+        // a UDP association keeps its control connection in the context while it relays: when the relay ends
+        // with an error (idle timeout, ...) the client already has its reply
+        if self.replied.load(std::sync::atomic::Ordering::Relaxed) {
+            return;
+        }
         let version = self.version;
         let cmd = SOCKS_REPLY_GENERAL_FAILURE;
         let target = "0.0.0.0:0".parse().unwrap();
